@@ -39,6 +39,8 @@ var menu = []string{
 	// a tag that refers to a mark, a mark that is emptied, deleted or extended while referenced
 	"addtag:mark/n=id:1", "addtag:tag/rm=mark:n", "markdel:mark/n=1", "markadd:mark/n=2", "deltag:mark/n", "rename:mark/n=mark/n2",
 	"converters:tag/a=conv", "converters:tag/a=nope", "converters:tag/b=conv", "converters:tag/a=", "converters:tag/zz=conv",
+	// selections of two converters, a selection that names one converter twice, a known next to an unknown one
+	"converters:tag/a=conv,conv2", "converters:tag/a=conv,conv", "converters:tag/a=conv2,nope",
 }
 
 type caseIn struct {
@@ -349,6 +351,31 @@ func checkApplied(call string, st manager.VerifState, bad func(string, string, .
 		if find(arg) != nil {
 			bad("c11.applied-without-effect", "%s returned nil but the tag still exists", call)
 		}
+	case "converters":
+		t := find(name)
+		if t == nil {
+			bad("c11.applied-without-effect", "%s returned nil but tag %s does not exist", call, name)
+			break
+		}
+		want := map[string]bool{}
+		for _, c := range strings.Split(val, ",") {
+			if c != "" {
+				want[c] = true
+			}
+		}
+		got := map[string]bool{}
+		for _, c := range t.Converters {
+			got[c] = true
+		}
+		same := len(want) == len(got)
+		for c := range want {
+			if !got[c] {
+				same = false
+			}
+		}
+		if !same {
+			bad("c11.applied-without-effect", "%s returned nil but tag %s has the converters %v", call, name, t.Converters)
+		}
 	}
 }
 
@@ -460,7 +487,7 @@ func Run(tier string) int {
 	cv["traces_validated_against_impl"] = transitions
 	cv["evaluations"] = transitions
 	cv["distinct_nontrivial"] = applied
-	cv["rule"] = "BFS over sequences of tag API calls (62-call menu: valid and invalid names, definitions, references to existing/missing/self/cycle-closing tags, query/colour/name updates, marks with known/unknown ids, converter attach/detach, deletes) on the real service holding 3 imported streams, in three modes (background jobs drained after every call / every job held where it starts until the sequence ends / every job held before its completion until the sequence ends; in the held modes the references and flags are checked while the jobs are parked and again after they ran); a state is the complete tag table plus the parked jobs; every transition runs in a supervised worker process; non-trivial = the call was applied (returned nil)"
+	cv["rule"] = "BFS over sequences of tag API calls (65-call menu: valid and invalid names, definitions, references to existing/missing/self/cycle-closing tags, query/colour/name updates, marks with known/unknown ids, converter attach/detach, deletes) on the real service holding 3 imported streams, in three modes (background jobs drained after every call / every job held where it starts until the sequence ends / every job held before its completion until the sequence ends; in the held modes the references and flags are checked while the jobs are parked and again after they ran); a state is the complete tag table plus the parked jobs; every transition runs in a supervised worker process; non-trivial = the call was applied (returned nil)"
 	cv["menu"] = len(menu)
 	cv["depth_completed"] = depthDone
 	cv["depth_bound"] = depth
